@@ -20,6 +20,8 @@ LEVEL = 'model_checking'
 KINDS = ('list', 'dict', 'tup')
 TNAME = {'list': 'list', 'dict': 'dict', 'tup': 'tuple', 'cdict': 'dict'}
 KINDS_C = ('list', 'dict', 'tup', 'cdict')     # cdict: a dict whose values carry comments
+KINDS_U = ('list', 'dict', 'unode')            # unode: a user object whose printer derives its context (assoc, ...)
+TNAME['unode'] = 'UNode'
 WATCHDOG_S = 3          # a print of a <= 8-node graph takes well under a millisecond
 MAX_TIMEOUTS_PER_CHUNK = 4
 MARK = re.compile(r'<Recursion on (\w+) with id=(-?\d+)>')
@@ -27,6 +29,13 @@ MARK = re.compile(r'<Recursion on (\w+) with id=(-?\d+)>')
 
 class Bad:
     """Its printer returns an int: pformat must raise ValueError (aborting the print)."""
+
+
+class UNode:
+    """A user container; its printer passes a *derived* context on to its children."""
+
+    def __init__(self):
+        self.items = []
 
 
 class Probe:
@@ -45,6 +54,15 @@ def ensure_registered():
     @register_pretty(Bad)
     def pretty_bad(v, ctx):
         return 42
+
+    @register_pretty(UNode)
+    def pretty_unode(v, ctx):
+        from prettyprinter import pretty_call
+        # every public way of deriving a context must keep the cycle-detection state
+        n = len(v.items)
+        derived = (ctx.assoc('seen', n) if n % 3 == 0 else ctx.use_multiline_strategy('MULTILINE_STRATEGY_PLAIN') if n % 3 == 1
+                   else ctx.assoc('a', 1).nested_call())
+        return pretty_call(derived, UNode, *v.items)
 
     @register_pretty(Probe)
     def pretty_probe(v, ctx):
@@ -66,6 +84,9 @@ def build(spec, leafobj=None):
         elif kind in ('dict', 'cdict'):
             nodes.append({})
             inner.append(None)
+        elif kind == 'unode':
+            nodes.append(UNode())
+            inner.append(None)
         else:
             lst = []
             nodes.append((lst,))
@@ -78,6 +99,8 @@ def build(spec, leafobj=None):
         if kind == 'dict':
             for j, x in enumerate(items):
                 tgt['k%d' % j] = x
+        elif kind == 'unode':
+            tgt.items.extend(items)
         elif kind == 'cdict':
             from prettyprinter import comment
             for j, x in enumerate(items):
@@ -109,6 +132,8 @@ def reference(spec, leaftext=None):
             return '([' + ', '.join(items) + '],)'
         if kind == 'list':
             return '[' + ', '.join(items) + ']'
+        if kind == 'unode':
+            return 'mc.checks.c13.UNode(' + ', '.join(items) + ')'
         return '{' + ', '.join("'k%d': %s" % (j, x) for j, x in enumerate(items)) + '}'      # dict and cdict
     return r(0, frozenset(), 0), probes
 
@@ -267,12 +292,12 @@ def work(item):
     kind = item[0]
     part = core.Part()
     if kind == 'cgraphs':
-        _, n, lo, hi = item
-        for spec in itertools.islice(graphs(n, 2, KINDS_C), lo, hi):
+        _, n, lo, hi, kinds, needle = item
+        for spec in itertools.islice(graphs(n, 2, kinds), lo, hi):
             if part.c['viol:timeout-or-exception'] >= MAX_TIMEOUTS_PER_CHUNK:
                 part.c['chunk_cut_short_after_timeouts'] += 1
                 break
-            if any(nd[0] == 'cdict' for nd in spec):
+            if any(nd[0] == needle for nd in spec):
                 check_graph(spec, part, widths=(10 ** 6, 20, 1))
                 part.c['graphs'] += 1
     elif kind == 'graphs':
@@ -316,8 +341,11 @@ def run(tier, seed):
         desc.append('all rooted graphs with %d nodes (every node reachable), out-degree <= 2: %d' % (n, total))
     for n in (1, 2):
         total = sum(1 for _ in graphs(n, 2, KINDS_C))
-        items += [('cgraphs', n, lo, hi) for lo, hi in core.chunks(total, 32)]
+        items += [('cgraphs', n, lo, hi, KINDS_C, 'cdict') for lo, hi in core.chunks(total, 32)]
         desc.append('graphs with %d nodes where dict values may carry comments (lazily re-rendered values): %d candidates' % (n, total))
+        total = sum(1 for _ in graphs(n, 2, KINDS_U))
+        items += [('cgraphs', n, lo, hi, KINDS_U, 'unode') for lo, hi in core.chunks(total, 32)]
+        desc.append('graphs with %d nodes incl. user objects whose printers derive their context through assoc / use_multiline_strategy / nested_call: %d candidates' % (n, total))
     if tier == 'thorough':
         total = sum(1 for _ in graphs(4, 1))
         items += [('graphs', 4, 1, lo, hi) for lo, hi in core.chunks(total, 128)]
